@@ -4,3 +4,4 @@ INVARIANT RangeOK
 INVARIANT ZeroPatternOK
 INVARIANT PTOK
 INVARIANT TraceOK
+INVARIANT XOK
